@@ -178,6 +178,28 @@ ConnInv ==
     /\ x.listening => x.held
     /\ ~hid.up => ~x.up
 
+(***************************************************************************)
+(* Drainability (the reachability half of C13 / C10, beyond the step-wise  *)
+(* clauses): from EVERY reachable state -- also the ones a kill inside a   *)
+(* command or a sweep leaves, also with the known findings' leftovers --   *)
+(* the fixed schedule "everybody goes away (a stopped server is started);  *)
+(* then the sweeps that fall due, one period after the other, until more   *)
+(* than the expiration time has passed" ends with an empty channel         *)
+(* database.  Computed with Step itself inside a state predicate, so the   *)
+(* model's clock bound (Constr) does not cut the schedule short: TLC       *)
+(* evaluates it on every state it reaches.                                 *)
+(***************************************************************************)
+EvK(k) == [Ev0 EXCEPT !.k = k]
+Quiet(S) == IF S.up THEN [S EXCEPT !.conn = NoConns] ELSE Step(S, EvK("Start")).S
+DrainRound(S) ==
+  LET S1 == IF S.now < S.nextSweep THEN [S EXCEPT !.now = S.nextSweep] ELSE S
+  IN Step(S1, EvK("Sweep")).S
+RECURSIVE DrainN(_, _)
+DrainN(S, n) == IF n = 0 THEN S ELSE DrainN(DrainRound(S), n - 1)
+DrainRounds == (EXP \div PERIOD) + 2
+Drained == DrainN(Quiet(State), DrainRounds)
+Drains == Drained.db = EmptyDb /\ Drained.now > now + EXP
+
 \* observation variables are not part of a state's identity
 View == <<db, udb, now, hid, g>>
 
